@@ -194,6 +194,7 @@ pub struct Driver<'a> {
     last_leader_count: u64,
     last_conf_applied: u64,
     last_snapshots: u64,
+    calm: bool,
 }
 
 const MS: u64 = 1000;
@@ -244,6 +245,11 @@ pub fn gen_cluster(p: &Profile, rng: &mut Prng) -> ClusterCfg {
             // pre_vote / check_quorum mixtures are legal but keep election ticks equal
             c.election_tick = base.election_tick;
             c.heartbeat_tick = base.heartbeat_tick;
+            // mixing pre_vote / check_quorum settings inside one group is unsupported (a node
+            // without them can get stuck behind peers that ignore its vote requests)
+            c.pre_vote = base.pre_vote;
+            c.check_quorum = base.check_quorum;
+            c.lease_read = base.lease_read && c.check_quorum;
             c
         } else {
             base.clone()
@@ -316,6 +322,7 @@ impl<'a> Driver<'a> {
             last_leader_count: 0,
             last_conf_applied: 0,
             last_snapshots: 0,
+            calm: false,
         };
         for id in ids {
             if d.world.nodes[&id].running() {
@@ -561,6 +568,8 @@ impl<'a> Driver<'a> {
             for _ in 0..k {
                 let t = self.rng.below(3) as u8;
                 let id = if self.rng.pm(100) { 0 } else if self.rng.pm(100) { 99 } else { *self.rng.pick(&universe) };
+                // a voter that can never be started would make the group unavailable for good (client error)
+                let t = if id == 99 && t == 0 { 2 } else { t };
                 changes.push((t, id));
             }
             let transition = self.rng.below(3) as u8;
@@ -810,7 +819,10 @@ impl<'a> Driver<'a> {
     pub fn run_with_world(mut self) -> (RunOutcome, World) {
         let budget = self.rng.range(self.p.run_len.0, self.p.run_len.1) as usize;
         let mut violation = None;
-        while self.trace.len() < budget {
+        if self.p.lockstep {
+            violation = self.run_lockstep(budget).err();
+        }
+        while !self.p.lockstep && self.trace.len() < budget {
             let Reverse((at, _, ev)) = match self.q.pop() {
                 Some(e) => e,
                 None => break,
@@ -849,6 +861,125 @@ impl<'a> Driver<'a> {
             }
         }
         (RunOutcome { trace: self.trace, cluster, violation, sim_time_us: self.now, fault_counts: faults }, self.world)
+    }
+
+    fn pump(&mut self, until_actions: usize) -> Result<(), Violation> {
+        while self.trace.len() < until_actions {
+            let Reverse((at, _, ev)) = match self.q.pop() {
+                Some(e) => e,
+                None => break,
+            };
+            self.now = at;
+            self.handle(ev)?;
+        }
+        Ok(())
+    }
+
+    /// C16 scenario: chaotic warm-up, calm phase, then lock-step rounds of a majority against an
+    /// adversarial minority.
+    fn run_lockstep(&mut self, budget: usize) -> Result<(), Violation> {
+        self.pump(budget / 3)?;
+        // calm: heal, no loss, no faults, restart everything
+        self.calm = true;
+        self.blocked.clear();
+        self.drop_pm = 0;
+        self.dup_pm = 0;
+        let ids: Vec<NodeId> = self.world.nodes.keys().cloned().collect();
+        for n in &ids {
+            if self.world.nodes[n].started && !self.world.nodes[n].running() && !self.world.nodes[n].decommissioned {
+                self.act(Action::Restart { n: *n })?;
+                let nd = self.nd.get_mut(n).unwrap();
+                nd.down = false;
+                nd.stalled = false;
+            }
+        }
+        let mut established = false;
+        for attempt in 0..6 {
+            let target = self.trace.len() + 120 + attempt * 60;
+            self.pump(target)?;
+            // choose a majority around the leader
+            let l = match self.leader() {
+                Some(l) => l,
+                None => continue,
+            };
+            let conf = self.world.nodes[&l].obs.conf.clone();
+            let mut voters: Vec<NodeId> = conf.voters.iter().cloned().filter(|v| *v != l && self.world.nodes[v].running()).collect();
+            self.rng.shuffle(&mut voters);
+            let need = conf.voters.len() / 2; // plus the leader = majority
+            if voters.len() < need {
+                continue;
+            }
+            let extra = if voters.len() > need && self.rng.pm(300) { 1 } else { 0 };
+            let mut majority = vec![l];
+            majority.extend(voters.into_iter().take(need + extra));
+            majority.sort_unstable();
+            self.act(Action::Lockstep { majority: majority.clone() })?;
+            if self.world.lockstep.is_some() {
+                established = true;
+                break;
+            }
+        }
+        if !established {
+            return Ok(());
+        }
+        let (maj, leader) = {
+            let ls = self.world.lockstep.as_ref().unwrap();
+            (ls.majority.clone(), ls.leader)
+        };
+        let minority: Vec<NodeId> = ids.iter().filter(|n| !maj.contains(n) && self.world.nodes[n].started).cloned().collect();
+        let rounds = self.rng.range(30, 120);
+        for _ in 0..rounds {
+            self.act(Action::Lockstep { majority: maj.clone() })?;
+            if self.world.lockstep.is_none() {
+                break; // cancelled during the grace period
+            }
+            // adversary
+            let k = self.rng.range(0, 12);
+            for _ in 0..k {
+                let involving: Vec<MsgKey> = self.world.flights.keys().filter(|k| !maj.contains(&k.f) || !maj.contains(&k.t)).cloned().collect();
+                let choice = self.rng.below(100);
+                if choice < 30 && !minority.is_empty() {
+                    let n = *self.rng.pick(&minority);
+                    let burst = if self.rng.pm(200) { self.rng.range(2, 3 * self.world.nodes[&n].cfg.election_tick as u64) } else { 1 };
+                    for _ in 0..burst {
+                        self.act(Action::Tick { n })?;
+                    }
+                } else if choice < 60 && !involving.is_empty() {
+                    let k = *self.rng.pick(&involving);
+                    self.act(Action::Deliver { k })?;
+                } else if choice < 68 && !involving.is_empty() {
+                    let k = *self.rng.pick(&involving);
+                    self.act(Action::Drop { k })?;
+                    self.fault("message_loss_minority");
+                } else if choice < 74 && !involving.is_empty() {
+                    let k = *self.rng.pick(&involving);
+                    self.act(Action::Dup { k })?;
+                    self.fault("duplicate");
+                } else if choice < 88 && !minority.is_empty() {
+                    let n = *self.rng.pick(&minority);
+                    let mode = self.round_mode(n);
+                    self.act(Action::AppReady { n, mode, skip_fsync: false, force: false })?;
+                    self.act(Action::Fsync { n, count: u32::MAX })?;
+                    self.act(Action::Apply { n, count: u32::MAX })?;
+                } else if choice < 93 && !minority.is_empty() {
+                    let n = *self.rng.pick(&minority);
+                    if self.world.nodes[&n].running() {
+                        let wq = self.world.nodes[&n].disk.wq.len() as u64;
+                        let keep = self.rng.range(0, wq) as u32;
+                        self.act(Action::Crash { n, keep, torn: 0 })?;
+                        self.fault("crash_minority");
+                    } else {
+                        self.act(Action::Restart { n })?;
+                    }
+                } else {
+                    let id = self.next_id;
+                    self.next_id += 1;
+                    self.act(Action::Propose { n: leader, id, size: 12 })?;
+                }
+            }
+            // held messages are released after the calm phase ended: drain the event queue of deliveries lazily
+        }
+        Ok(())
     }
 
     fn handle(&mut self, ev: Ev) -> Result<(), Violation> {
@@ -953,6 +1084,7 @@ impl<'a> Driver<'a> {
                     }
                 }
             }
+            Ev::Fault if self.calm => {}
             Ev::Fault => {
                 if self.biased_fault_armed {
                     self.biased_fault_armed = false;
